@@ -398,15 +398,15 @@ def cardinal_set_iterator(ctx, crate, clause="vertex-set"):
         arg = ('ref_t', ('tmp', 'dir')) if bx.local_ty(1)["k"] == "ref" else v
         r = e.run_body(bx, [arg], st, fk=((IDX, -1),), stack=(IDX,))
         return r.ret[2] if r.returns and r.ret[0] == 'c' else None
-    bad = []; n = 0
+    bad = []; unread = []; n = 0
     for B in range(16):
         e = Engine(crate); r = e.run(ii, [('agg', 'adt:' + CS, 0, (C('u8', B),))]); ctx.functions |= e.visited_fns
-        if not r.returns or r.ret[0] != 'agg': bad.append((B, "into_iter does not fold")); continue
+        if not r.returns or r.ret[0] != 'agg': unread.append((B, "into_iter does not fold")); continue
         state = r.ret; got = []; done = False
         for _ in range(6):
             e = Engine(crate, unroll=16); st = State(); st.heap[('tmp', 'it')] = state
             r = e.run_body(b, [('ref_t', ('tmp', 'it'))], st, fk=((nx, -1),), stack=(nx,)); ctx.functions |= e.visited_fns
-            if not r.returns or r.ret[0] != 'agg' or not str(r.ret[1]).endswith("Option"): bad.append((B, "next does not fold after %s" % got)); done = None; break
+            if not r.returns or r.ret[0] != 'agg' or not str(r.ret[1]).endswith("Option"): unread.append((B, "next does not fold after %s" % got)); done = None; break
             n += 1
             if r.ret[2] == 0: done = True; break
             got.append(index_of(r.ret[3][0])); state = r.state.heap.get(('tmp', 'it'))
@@ -415,6 +415,9 @@ def cardinal_set_iterator(ctx, crate, clause="vertex-set"):
         want = [i for i in range(4) if (B >> i) & 1]
         if not done: bad.append((B, "still yielding after 6 calls: %s" % got))
         elif sorted(x if x is not None else -1 for x in got) != want: bad.append((B, "yields directions of index %s, the set holds %s" % (got, want)))
+    if unread and not bad:
+        # written with iterator adaptors / closures the engine does not execute on a concrete state: nothing is said
+        ctx.not_decided("CardinalSet iteration: %s (byte %s)" % (unread[0][1], unread[0][0])); return
     ctx.report(clause, nx + ":yields-exactly-the-set", not bad and n >= 48, "16 sets driven from into_iter to None (%d calls of next)" % n if not bad else "byte %s: %s" % bad[0], at=b.span, kind="N")
 
 
